@@ -191,6 +191,27 @@ def run(ctx):
         for _ in range(ctx.budget(3, 100)):
             wd = T.inner_site_instance(rng, cls)
             ctx.guard(check_case, {"cls": asm.cls_name(cls), "word": gen.rot(wd, rng.randrange(len(wd)))})
+    # a further site that shares its first letter(s) with the last letter(s) of a flanking site (CGTCTCGTCTC): possible
+    # whenever the site overlaps itself; its cut falls strictly inside the target
+    selfov = []
+    for enz in boot.supported_enzymes():
+        S = enz.site
+        bs = [b for b in range(1, len(S)) if S[:b] == S[-b:]]
+        if bs and set(S) <= set("ACGT"):
+            selfov.append((enz, bs))
+    ctx.extra["cov_self_overlapping_sites"] = sorted(str(e) for e, _ in selfov)
+    for _ in range(ctx.budget(60, 1500)):
+        enz, bs = rng.choice(selfov)
+        S, off, k = gen.geom(enz)
+        fb = (S, gen.rc(S))
+        F = S[rng.choice(bs):]
+        tlen = max(2, len(F) - off - k) + rng.randint(2, 8)
+        stretch = F + gen.rnd_avoid(rng, off + k + tlen - len(F), fb)
+        wd = S + stretch + gen.rnd(rng, k) + gen.rnd_avoid(rng, off, fb) + gen.rc(S) + gen.rnd_avoid(rng, rng.randint(2, 9), fb)
+        if rng.random() < 0.5:
+            wd = gen.rc(wd)                 # the same next to the downstream site
+        ctx.guard(check_case, {"cls": "generic:M:{}".format(enz), "word": gen.rot(wd, rng.randrange(len(wd)))})
+        ctx.note("overlapping-extra-site")
     for enz in asm.pick_enzymes(rng, ctx.budget(150, 4000)):
         name = str(enz)
         kind = rng.choice("MV")
